@@ -73,18 +73,24 @@ func copyTree(src, dst string, keep func(rel string, d fs.DirEntry) bool) error 
 type rewriteStats struct {
 	Files     int
 	Rewritten int // selector expressions replaced
+	Points    int // inner yield points inserted
 }
 
-// rewritePool replaces every reference to sync.Pool in the Go file by
-// simrt.Pool (the stub with the same method set and New field).
-func rewritePool(path string) (int, error) {
+// rewriteFile applies both source transformations to one Go file of the
+// scratch copy: (1) every reference to sync.Pool is re-pointed to the stub
+// simrt.Pool; (2) inner yield points: simrt.Point() before every statement of
+// every function body, simrt.Locked()/Unlocking() around the library's own
+// critical sections, and "go f()" turned into simrt.Spawn so that goroutines
+// the library starts stay under the scheduler's control.
+func rewriteFile(path string) (poolRefs, points int, err error) {
 	fset := token.NewFileSet()
 	f, err := parser.ParseFile(fset, path, nil, parser.ParseComments)
 	if err != nil {
-		return 0, err
+		return 0, 0, err
 	}
 	syncName := ""
 	var syncSpec *ast.ImportSpec
+	haveSimrt := false
 	for _, is := range f.Imports {
 		p, _ := strconv.Unquote(is.Path.Value)
 		if p == "sync" {
@@ -94,59 +100,212 @@ func rewritePool(path string) (int, error) {
 			}
 			syncSpec = is
 		}
-	}
-	if syncSpec == nil || syncName == "_" || syncName == "." {
-		return 0, nil
-	}
-	n, others := 0, 0
-	ast.Inspect(f, func(node ast.Node) bool {
-		sel, ok := node.(*ast.SelectorExpr)
-		if !ok {
-			return true
+		if p == "verif.local/simrt" {
+			haveSimrt = true
 		}
-		id, ok := sel.X.(*ast.Ident)
-		if !ok || id.Name != syncName || id.Obj != nil {
-			return true
-		}
-		if sel.Sel.Name == "Pool" {
-			id.Name = "simrt"
-			n++
-		} else {
-			others++
-		}
-		return true
-	})
-	if n == 0 {
-		return 0, nil
 	}
-	if others == 0 {
-		// sync is no longer used: turn its import into the simrt import.
-		syncSpec.Path.Value = strconv.Quote("verif.local/simrt")
-		syncSpec.Name = ast.NewIdent("simrt")
-	} else {
-		spec := &ast.ImportSpec{Name: ast.NewIdent("simrt"), Path: &ast.BasicLit{Kind: token.STRING, Value: strconv.Quote("verif.local/simrt")}}
-		done := false
-		for _, d := range f.Decls {
-			if gd, ok := d.(*ast.GenDecl); ok && gd.Tok == token.IMPORT {
-				gd.Specs = append(gd.Specs, spec)
-				if !gd.Lparen.IsValid() {
-					gd.Lparen = gd.Pos()
-					gd.Rparen = gd.End()
-				}
-				done = true
-				break
+	others := 0
+	if syncSpec != nil && syncName != "_" && syncName != "." {
+		ast.Inspect(f, func(node ast.Node) bool {
+			sel, ok := node.(*ast.SelectorExpr)
+			if !ok {
+				return true
 			}
+			id, ok := sel.X.(*ast.Ident)
+			if !ok || id.Name != syncName || id.Obj != nil {
+				return true
+			}
+			if sel.Sel.Name == "Pool" {
+				id.Name = "simrt"
+				poolRefs++
+			} else {
+				others++
+			}
+			return true
+		})
+	}
+	if os.Getenv("VERIF_NO_INNER") == "" {
+		points = instrument(f)
+	}
+	if poolRefs == 0 && points == 0 {
+		return 0, 0, nil
+	}
+	if !haveSimrt {
+		if syncSpec != nil && poolRefs > 0 && others == 0 {
+			// sync is no longer used: turn its import into the simrt import.
+			syncSpec.Path.Value = strconv.Quote("verif.local/simrt")
+			syncSpec.Name = ast.NewIdent("simrt")
+		} else {
+			spec := &ast.ImportSpec{Name: ast.NewIdent("simrt"), Path: &ast.BasicLit{Kind: token.STRING, Value: strconv.Quote("verif.local/simrt")}}
+			gd := &ast.GenDecl{Tok: token.IMPORT, Specs: []ast.Spec{spec}}
+			// a new import declaration right after the last existing one (or first)
+			at := 0
+			for i, d := range f.Decls {
+				if g, ok := d.(*ast.GenDecl); ok && g.Tok == token.IMPORT {
+					at = i + 1
+				}
+			}
+			f.Decls = append(f.Decls[:at], append([]ast.Decl{gd}, f.Decls[at:]...)...)
+			f.Imports = append(f.Imports, spec)
 		}
-		if !done {
-			return 0, fmt.Errorf("%s: no import declaration to extend", path)
-		}
-		f.Imports = append(f.Imports, spec)
 	}
 	var buf bytes.Buffer
+	// Comments are dropped from the rewritten copy: after inserting statements
+	// their positions would be meaningless (and //go: directives are re-added
+	// nowhere: the library has none on functions).
+	f.Comments = nil
 	if err := printer.Fprint(&buf, fset, f); err != nil {
-		return 0, err
+		return 0, 0, err
 	}
-	return n, os.WriteFile(path, buf.Bytes(), 0o644)
+	return poolRefs, points, os.WriteFile(path, buf.Bytes(), 0o644)
+}
+
+func simrtCall(name string) ast.Stmt {
+	return &ast.ExprStmt{X: &ast.CallExpr{Fun: &ast.SelectorExpr{X: ast.NewIdent("simrt"), Sel: ast.NewIdent(name)}}}
+}
+
+// lockKind classifies a call expression by method name: +1 acquires, -1
+// releases, 2 = once.Do style (holds an internal lock while running f).
+func lockKind(e ast.Expr) int {
+	call, ok := e.(*ast.CallExpr)
+	if !ok {
+		return 0
+	}
+	sel, ok := call.Fun.(*ast.SelectorExpr)
+	if !ok {
+		return 0
+	}
+	switch sel.Sel.Name {
+	case "Lock", "RLock":
+		if len(call.Args) == 0 {
+			return 1
+		}
+	case "Unlock", "RUnlock":
+		if len(call.Args) == 0 {
+			return -1
+		}
+	case "Do":
+		if len(call.Args) == 1 {
+			return 2
+		}
+	}
+	return 0
+}
+
+// instrument inserts the inner yield points into every function body.
+func instrument(f *ast.File) int {
+	n := 0
+	var list func(stmts []ast.Stmt) []ast.Stmt
+	var walk func(node ast.Node)
+	rewriteStmt := func(s ast.Stmt) []ast.Stmt {
+		switch st := s.(type) {
+		case *ast.ExprStmt:
+			switch lockKind(st.X) {
+			case 1:
+				return []ast.Stmt{s, simrtCall("Locked")}
+			case -1:
+				return []ast.Stmt{simrtCall("Unlocking"), s}
+			case 2:
+				return []ast.Stmt{simrtCall("Locked"), s, simrtCall("Unlocking")}
+			}
+		case *ast.DeferStmt:
+			if lockKind(st.Call) == -1 {
+				body := &ast.BlockStmt{List: []ast.Stmt{simrtCall("Unlocking"), &ast.ExprStmt{X: st.Call}}}
+				st.Call = &ast.CallExpr{Fun: &ast.FuncLit{Type: &ast.FuncType{Params: &ast.FieldList{}}, Body: body}}
+			}
+		case *ast.GoStmt:
+			// go f(args) -> simrt.Spawn(func() { f(args) }) with the arguments
+			// evaluated at the go statement, as the language requires.
+			call := st.Call
+			var pre []ast.Stmt
+			for i, a := range call.Args {
+				if _, lit := a.(*ast.BasicLit); lit {
+					continue
+				}
+				name := ast.NewIdent("simrtArg" + strconv.Itoa(n) + "_" + strconv.Itoa(i))
+				pre = append(pre, &ast.AssignStmt{Lhs: []ast.Expr{name}, Tok: token.DEFINE, Rhs: []ast.Expr{a}})
+				call.Args[i] = name
+			}
+			n++
+			spawn := &ast.ExprStmt{X: &ast.CallExpr{
+				Fun:  &ast.SelectorExpr{X: ast.NewIdent("simrt"), Sel: ast.NewIdent("Spawn")},
+				Args: []ast.Expr{&ast.FuncLit{Type: &ast.FuncType{Params: &ast.FieldList{}}, Body: &ast.BlockStmt{List: []ast.Stmt{&ast.ExprStmt{X: call}}}}},
+			}}
+			if call.Ellipsis.IsValid() {
+				return []ast.Stmt{s} // variadic spread: leave as is
+			}
+			return append(pre, spawn)
+		}
+		return []ast.Stmt{s}
+	}
+	list = func(stmts []ast.Stmt) []ast.Stmt {
+		out := make([]ast.Stmt, 0, 2*len(stmts))
+		for _, s := range stmts {
+			walk(s)
+			out = append(out, simrtCall("Point"))
+			n++
+			out = append(out, rewriteStmt(s)...)
+		}
+		return out
+	}
+	walk = func(node ast.Node) {
+		ast.Inspect(node, func(c ast.Node) bool {
+			switch b := c.(type) {
+			case *ast.SwitchStmt:
+				if b.Init != nil {
+					walk(b.Init)
+				}
+				if b.Tag != nil {
+					walk(b.Tag)
+				}
+				for _, cl := range b.Body.List {
+					walk(cl)
+				}
+				return false
+			case *ast.TypeSwitchStmt:
+				if b.Init != nil {
+					walk(b.Init)
+				}
+				walk(b.Assign)
+				for _, cl := range b.Body.List {
+					walk(cl)
+				}
+				return false
+			case *ast.SelectStmt:
+				for _, cl := range b.Body.List {
+					walk(cl)
+				}
+				return false
+			case *ast.BlockStmt:
+				if b != nil {
+					b.List = list(b.List)
+				}
+				return false
+			case *ast.CaseClause:
+				for _, e := range b.List {
+					walk(e)
+				}
+				b.Body = list(b.Body)
+				return false
+			case *ast.CommClause:
+				b.Body = list(b.Body)
+				return false
+			}
+			return true
+		})
+	}
+	for _, d := range f.Decls {
+		switch fd := d.(type) {
+		case *ast.FuncDecl:
+			if fd.Body != nil {
+				walk(fd.Body)
+			}
+		case *ast.GenDecl:
+			// function literals in package-level initialisers
+			walk(fd)
+		}
+	}
+	return n
 }
 
 // prepare builds the scratch tree: a rewritten copy of /repo's current working
@@ -172,8 +331,9 @@ func prepare(scratch string) (rewriteStats, error) {
 			return err
 		}
 		st.Files++
-		n, err := rewritePool(p)
+		n, pts, err := rewriteFile(p)
 		st.Rewritten += n
+		st.Points += pts
 		return err
 	})
 	if err != nil {
